@@ -36,13 +36,21 @@ struct Pair {
   // C: container type; get(c, i), size; copying Convert, in-place ConvertInPlace
   template <class C, class MK, class GET>
   void container(const std::string& form, int n, MK&& mk, GET&& get) {
-    for (int pat = 0; pat < 3; pat++) {
+    for (int pat = 0; pat < 5; pat++) {
       std::vector<T> in(n), want(n);
       // pat 0, 1: pairwise distinct slot values; pat 2: the values of an exactly symmetric tensor (slots (i,j) and (j,i) equal, the
       // six independent ones distinct) - a structure-dependent shortcut inside a tensor conversion is met here
       static const int sym[9] = {0, 1, 2, 1, 3, 4, 2, 4, 5};
       for (int i = 0; i < n; i++) {
         in[i] = pat < 2 ? val<T>(i, pat) : val<T>(sym[i % 9] + 9 * (i / 9), 1);
+        // pat 3, 4: chains - every element is what its predecessor converts to (forwards, resp. backwards), restarted every third
+        // element: a value that coincides with a neighbour's converted value must still be converted itself
+        if (pat >= 3 && i % 3 != 0) {
+          const T c = pat == 3 ? PhQ::Convert(in[i - 1], f, t) : PhQ::Convert(in[i - 1], t, f);
+          in[i] = std::isfinite(c) && c != 0 ? c : in[i];
+        } else if (pat >= 3) {
+          in[i] = val<T>(i, 0);
+        }
         want[i] = PhQ::Convert(in[i], f, t);
       }
       const C orig = mk(in);
@@ -101,7 +109,7 @@ struct Pair {
           return a;
         },
         [](const std::array<T, 17>& c, int i) { return c[i]; });
-    for (int n : {0, 1, 5, 64, 1000, 1024, 4096})  // incl. exact multiples of plausible block sizes
+    for (int n : {0, 1, 5, 64, 1000, 1024, 1025, 2500, 4096})  // incl. exact multiples of plausible block sizes and sizes just beyond them
       if (!light || n <= 5) {
         container<std::vector<T>>("vector<" + std::to_string(n) + ">", n, [](const std::vector<T>& v) { return v; }, [](const std::vector<T>& c, int i) { return c[i]; });
         // the same with spare capacity behind the last element (reserve): only the size() elements are the container's values
